@@ -383,6 +383,35 @@ class _HostileTb(Exception):
     __traceback__ = property(lambda self: None, _set)
 
 
+class _UnhashableExc(Exception):
+    """an exception with value equality and therefore no hash (what @dataclass(eq=True) makes of an exception class)"""
+    def __init__(self, label='A1'):
+        Exception.__init__(self, label)
+        self.label = label
+
+    def __eq__(self, other):
+        return isinstance(other, _UnhashableExc) and other.label == self.label
+    __hash__ = None
+
+
+class _HostileExc(Exception):
+    """an exception that cannot be hashed, compared or asked for its truth value"""
+    def __eq__(self, other):
+        raise RuntimeError('no ==')
+
+    def __ne__(self, other):
+        raise RuntimeError('no !=')
+
+    def __hash__(self):
+        raise RuntimeError('no hash')
+
+    def __bool__(self):
+        raise RuntimeError('no truth value')
+
+    def __len__(self):
+        raise RuntimeError('no len')
+
+
 class _HostileClass(object):
     """a value whose __class__ attribute raises: isinstance(value, X) raises"""
     @property
@@ -469,6 +498,7 @@ def _exc_of(how):
         'unicode': lambda: UnicodeDecodeError('utf-8', b'\xff', 0, 1, '#NUM!'), 'warning': lambda: UserWarning('#VALUE!'),
         'class': lambda: ValueError, 'stopasync': StopAsyncIteration, 'hostile-tb': _HostileTb,
         'typeerror': lambda: TypeError('#N/A'), 'zerodiv': lambda: ZeroDivisionError('division by zero'),
+        'unhashable': _UnhashableExc, 'hostile-exc': _HostileExc,
     }
     return table[what]()
 
@@ -480,11 +510,11 @@ RAISE_HOWS = ['raise:xl:%s' % t for t in TAGS] + ['raise:py:#N/A', 'raise:py:#GE
                                                   'raise:weird', 'raise:xlempty', 'raise:badstr', 'raise:badstr2', 'raise:syntax',
                                                   'raise:stopiter', 'raise:recursion', 'raise:memory', 'raise:keyerror', 'raise:assert',
                                                   'raise:oserror', 'raise:unicode', 'raise:warning', 'raise:class', 'raise:stopasync',
-                                                  'raise:typeerror', 'raise:zerodiv']
+                                                  'raise:typeerror', 'raise:zerodiv', 'raise:unhashable', 'raise:hostile-exc']
 SET_HOWS = ['set:%d' % i for i in range(NPOOL)] + ['set:weird', 'set:xlsub', 'set:xlbadstr', 'set:object', 'set:record', 'set:nan',
                                                    'set:bigint', 'set:errlist', 'set:badstrvalue', 'set:badeq', 'settwice', 'setraise',
                                                    'setnothing', 'setbadarity']
-REENTER_HOWS = ['reenter:other', 'reenter:same3', 'reenter:unbounded', 'reenter:error']
+REENTER_HOWS = ['reenter:other', 'reenter:same3', 'reenter:unbounded', 'reenter:error', 'reenter:edit']
 MUTATE_HOWS = ['mutate:off', 'mutate:on', 'mutate:setvar', 'mutate:clear']
 EVENTS = ['callFunction', 'callVariable', 'callCellValue', 'callRangeValue']
 FN_FORMS = ['F()', 'F(1)', 'F(1)+1', '1+F(1)', 'IFERROR(F(1),7)', 'ISERROR(F())', '{F(),1}', 'SUM(F(),1)', '-F()', 'F()&"a"', 'F()=F()',
@@ -534,6 +564,17 @@ def _host_parser(where, how):
             if setter is not None:
                 setter(r['result'])
             return r['result']
+        elif how == 'reenter:edit':
+            # a sheet host: the referenced cell is blank (source ''), its record is annotated and emptied by the host
+            r = p.parse('')
+            v = r.get('result') if type(r) is dict else r
+            if type(r) is dict:
+                r['cell'] = 'A1'
+                r.pop('result', None)
+                r.pop('error', None)
+            if setter is not None:
+                setter(v)
+            return v
         elif how == 'reenter:error':
             r = p.parse('1/0+')
             if setter is not None:
@@ -972,6 +1013,11 @@ def _run_case(case, skip, prog, tid, meter):
             codes[e] = codes.get(e, 0) + 1
             if keep:
                 recs[i] = (e, _sanitize(r.get('result')))
+        if type(r) is dict:
+            # the record now belongs to the caller; a caller that edits it must not reach any later evaluation
+            # (a record object handed out twice would come back without its entries)
+            r.clear()
+            r['edited-by-the-caller'] = True
         if setup == 'pool' or setup == 'soup':
             mutated += _repair_pool(p)
         if hstate is not None and msg is not None and 'budget' in msg:
